@@ -770,7 +770,8 @@ class BandlimitedFIRNoiseFactory(Carrier):
         else:
             freq = np.array([fl, fh])
             sf = calibration.get_mean_sf(fl, fh, level)
-            sf = np.full_like(freq, fill_value=sf)
+            # freq is an integer array when fl and fh are integers
+            sf = np.full_like(freq, fill_value=sf, dtype=np.double)
 
         if max_correction is not None and equalize:
             sf = apply_max_correction(sf, max_correction)
